@@ -351,6 +351,13 @@ pub mod vmrec {
     pub fn init_from_env() -> bool {
         let Ok(path) = std::env::var("VERIF_VMTRACE") else { return false };
         let cap = std::env::var("VERIF_VMTRACE_CAP").ok().and_then(|x| x.parse().ok()).unwrap_or(3000);
+        // a directory (or a path ending in '/'): one file per replayer process
+        let path = if path.ends_with('/') || std::path::Path::new(&path).is_dir() {
+            let _ = std::fs::create_dir_all(&path);
+            format!("{}/trace.{}.ndjson", path.trim_end_matches('/'), std::process::id())
+        } else {
+            path
+        };
         let f = std::fs::OpenOptions::new().create(true).append(true).open(path).expect("vm trace file");
         *REC.lock().unwrap() = Some(Rec { out: Some(std::io::BufWriter::new(f)), codes: HashMap::new(), marks: HashMap::new(),
                                           count: 0, cap, owner: None, truncated: false });
